@@ -137,6 +137,11 @@ def main():
     kvcache = {}
 
     def kv(spec):
+        if isinstance(spec, dict):      # explicit knots (graded, moved or repeated interior knots)
+            key = (spec['p'],) + tuple(spec['knots'])
+            if key not in kvcache:
+                kvcache[key] = bspline.KnotVector(np.array(spec['knots'], dtype=float), int(spec['p']))
+            return kvcache[key]
         p, n, a, b = spec
         key = (p, n, a, b)
         if key not in kvcache:
